@@ -58,6 +58,8 @@ type wres struct {
 	Alloc    uint64 `json:"alloc"`
 	Consumed int    `json:"consumed"`
 	Micros   int64  `json:"micros"`
+	Decomp   int32  `json:"decomp,omitempty"` // codec code when a decompressor ran during the decode
+	InDecomp bool   `json:"in_decomp,omitempty"` // parent only: the dead worker's crash report shows decompressor frames
 	Stderr   string `json:"stderr,omitempty"` // parent only: tail of the dead worker's stderr
 }
 
@@ -157,6 +159,7 @@ func TestWorker(t *testing.T) {
 		os.Exit(4)
 	}
 	debug.SetMaxStack(workerStack)
+	instrumentCodecs()
 	out := os.NewFile(3, "results")
 	if out == nil {
 		fmt.Fprintln(os.Stderr, "worker: fd 3 missing")
@@ -188,6 +191,7 @@ func TestWorker(t *testing.T) {
 		}
 		done := make(chan decodeResult, 1)
 		timer := time.NewTimer(wd)
+		decompressUsed.Store(0)
 		runtime.ReadMemStats(&m0)
 		t0 := time.Now()
 		go func() {
@@ -198,7 +202,7 @@ func TestWorker(t *testing.T) {
 		select {
 		case r = <-done:
 		case <-timer.C:
-			enc.Encode(wres{Seq: rq.Seq, Outcome: "timeout", Msg: fmt.Sprintf("no return within %v", wd), Micros: time.Since(t0).Microseconds()})
+			enc.Encode(wres{Seq: rq.Seq, Outcome: "timeout", Msg: fmt.Sprintf("no return within %v", wd), Micros: time.Since(t0).Microseconds(), Decomp: decompressUsed.Load()})
 			os.Exit(3) // the decoding goroutine cannot be stopped
 		}
 		el := time.Since(t0)
@@ -208,7 +212,7 @@ func TestWorker(t *testing.T) {
 			runtime.GC()
 			sinceGC = 0
 		}
-		enc.Encode(wres{Seq: rq.Seq, Outcome: r.Outcome, Msg: r.Msg, Alloc: m1.TotalAlloc - m0.TotalAlloc, Consumed: r.Consumed, Micros: el.Microseconds()})
+		enc.Encode(wres{Seq: rq.Seq, Outcome: r.Outcome, Msg: r.Msg, Alloc: m1.TotalAlloc - m0.TotalAlloc, Consumed: r.Consumed, Micros: el.Microseconds(), Decomp: decompressUsed.Load()})
 		if err != nil {
 			return
 		}
@@ -398,7 +402,8 @@ func (p *pool) Do(rq wreq) (wres, error) {
 		p.deaths++
 		p.restarts++
 		p.mu.Unlock()
-		return wres{Seq: rq.Seq, Outcome: "death", Msg: st, Stderr: lastLines(w.stderr.String(), 30)}, nil
+		full := w.stderr.String()
+		return wres{Seq: rq.Seq, Outcome: "death", Msg: st, Stderr: lastLines(full, 30), InDecomp: inDecompressor(full)}, nil
 	case <-timer.C:
 		st := w.kill()
 		s.w = nil
@@ -439,6 +444,18 @@ func lastLines(s string, n int) string {
 		lines = lines[:n]
 	}
 	return strings.Join(lines, "\n")
+}
+
+// inDecompressor reports whether a stack trace (panic message or crash report)
+// runs through a decompressor: the library's compress packages or the format
+// libraries behind them.
+func inDecompressor(trace string) bool {
+	for _, m := range []string{"kafka-go/compress/", "klauspost/compress/", "pierrec/lz4", "compress/gzip", "compress/flate", "golang/snappy"} {
+		if strings.Contains(trace, m) {
+			return true
+		}
+	}
+	return false
 }
 
 // deathClass names why a worker died from what it printed.
